@@ -104,6 +104,9 @@ theorem sockListen_ep (x : SockO) (e : EP) : Always (sockListen x e) (fun r => E
 theorem sockConnect_ep (x y : SockO) (e : EP) : Always (sockConnect x y e) (fun r => EPle e r.2.2.2) := by
   unfold sockConnect; ep_tac
 
+theorem sockIoClosed_ep (x : SockO) (e : EP) : Always (sockIoClosed x e) (fun r => EPle e r.2.2) := by
+  unfold sockIoClosed; ep_tac
+
 theorem sockConnectRefused_ep (x : SockO) (e : EP) : Always (sockConnectRefused x e) (fun r => EPle e r.2.2) := by
   unfold sockConnectRefused; ep_tac
 
@@ -191,6 +194,9 @@ theorem mutRun_ep (k : MutK) (o : Obj) (e : EP) (m : ResM (Char × Option Obj ×
   case sockConnectRefused.sock x =>
     split at hm <;> simp only [Option.some.injEq, reduceCtorEq] at hm
     subst hm; apply Always.bind' (sockConnectRefused_ep x e); rintro ⟨c, i', e'⟩ h; ep_tac
+  case sockIoClosed.sock x =>
+    split at hm <;> simp only [Option.some.injEq, reduceCtorEq] at hm
+    subst hm; apply Always.bind' (sockIoClosed_ep x e); rintro ⟨c, i', e'⟩ h; ep_tac
   all_goals (subst hm; ep_tac)
 
 theorem deriveRun_ep (k : DeriveK) (o : Obj) (e : EP) (m : ResM (Char × Obj × Option Obj × EP))
